@@ -36,8 +36,16 @@ def int_value(s):
 @specfn({'pattern': 'str', 'text': 'str'}, 'bool', opaque=True)
 def glob(pattern, text):
     """`*` in the pattern stands for any run of characters (the meaning of core.matcher.str_matcher)"""
-    import re
-    return re.match('^' + re.escape(pattern).replace(r'\*', '.*') + '$', text) is not None
+    # independent reference (no regular expressions): classic wildcard matching, `*` = any run of characters
+    p, t = pattern, text
+    reach = {0}
+    for ch in p:
+        if ch == '*':
+            lo = min(reach) if reach else None
+            reach = set(range(lo, len(t) + 1)) if lo is not None else set()
+        else:
+            reach = {i + 1 for i in reach if i < len(t) and t[i] == ch}
+    return len(t) in reach
 
 
 from pyvc.contracts import axiom
